@@ -218,11 +218,10 @@ Qed.
 (* ---------------------------------------------------------------------------------------------
    E.  Stale tensors.  The machine is compositional: __setitem__ = clear_tensors ; write,
    __add__ = copy ; clear_tensors ; iadd,  __iadd__ = clear_tensors ; __add__, where the primitive
-   iadd is kind specific (Cartesian: ndarray.__iadd__, which clears nothing; DIC: ... self[:] = s_k,
+   iadd is kind specific (Cartesian: clear_tensors ; ndarray.__iadd__; DIC: ... self[:] = s_k,
    on the converged and on the first-order-fallback branch alike).  For BOTH kinds, after ANY
    operation sequence ending in c[k] = v, c = c + d, c = c - d, c += d or c -= d the stored energy,
-   gradient, Hessian and inverse Hessian are None and the getter c.h returns None: the clearing is
-   done by the explicit clear_tensors call of the dunder, not by the primitive step.
+   gradient, Hessian and inverse Hessian are None and the getter c.h returns None.
    The alphabet is the public OptCoordinates interface; numpy operations that bypass it (ufunc
    results, *=, fill, writes through views) are NOT in the model: they are exercised - and keep
    stale tensors - on the implementation only (harness keys OptCoordinates|stale-tensors:...).
@@ -241,30 +240,33 @@ Proof.
   unfold obs_h. rewrite C. exact D.
 Qed.
 
-(* No stored tensor (nor what c.h returns) is ever older than the coordinates - for a DIC under every
-   operation of the alphabet, for Cartesian coordinates as long as iadd() is not called directly. *)
-Theorem no_stale_tensor_partial :
+(* No stored tensor (nor what c.h returns) is ever older than the coordinates, for both kinds and
+   every operation list over the alphabet of the model (the public OptCoordinates interface). *)
+Theorem no_stale_tensor_ever :
   forall (k : ckind) (ops : list cop),
-    Forall (fun o => keeps_fresh k o = true) ops ->
     let s := crun k cinit ops in
     fresh_tag s (t_e s) /\ fresh_tag s (t_g s) /\ fresh_tag s (t_h s) /\ fresh_tag s (t_hinv s) /\
     fresh_tag s (obs_h s).
 Proof.
-  intros k ops Hf s. destruct (crun_fresh k ops cinit Hf) as [A [B [C D]]].
+  intros k ops s. destruct (crun_fresh k ops cinit) as [A [B [C D]]].
   { unfold all_fresh, cinit. cbn. auto. }
   fold s in A, B, C, D. split; [exact A|]. split; [exact B|]. split; [exact C|]. split; [exact D|].
   unfold obs_h. destruct (t_h s) eqn:E; [rewrite <- E in *; rewrite E in C; rewrite E; exact C|exact D].
 Qed.
 
-(* ... and the restriction is necessary: CartesianCoordinates.iadd (cartesian.py:79-80) moves the
-   coordinates and keeps e, g, h: "stale tensors are discarded when coordinates change" is FALSE of
-   the faithful model for a direct iadd() call (harness key CartesianCoordinates.iadd|keeps-tensors). *)
-Theorem cartesian_iadd_keeps_tensors_refuted :
-  exists ops : list cop,
-    let s := crun KCart cinit ops in
-    exists t, t_g s = Some t /\ t_e s = Some t /\ obs_h s = Some t /\ t <> ver s.
+(* The primitive step called directly, c.iadd(d), discards the tensors too - for Cartesian coordinates
+   since /repo commit 2c6603e (iadd = clear_tensors ; ndarray.__iadd__), for a DIC through self[:] = s_k. *)
+Theorem direct_iadd_clears_tensors :
+  forall (k : ckind) (s : cstate) (ops : list cop),
+    let s' := crun k s (ops ++ [OIaddCall]) in
+    t_e s' = None /\ t_g s' = None /\ t_h s' = None /\ t_hinv s' = None /\ obs_h s' = None /\
+    ver s' = S (ver (crun k s ops)).
 Proof.
-  exists [OSetE true; OSetG true; OSetH true; OIaddCall]. cbn. exists 0. repeat split; discriminate.
+  intros k s ops s'. subst s'. rewrite crun_app.
+  set (s1 := crun k s ops). change (crun k s1 [OIaddCall]) with (raw_iadd k s1).
+  destruct (raw_iadd_clears k s1) as [A [B [C [D E]]]].
+  split; [exact A|]. split; [exact B|]. split; [exact C|]. split; [exact D|]. split; [|exact E].
+  unfold obs_h. rewrite C. exact D.
 Qed.
 
 Example machine_nonvacuous :
